@@ -440,6 +440,23 @@ func cmdCheck(args []string) int {
 			if strings.Contains(string(out), "WRONG") {
 				fmt.Println("SELFTEST-MISS property=" + prop + " " + sum)
 			}
+			// (3) the independently seeded changes made for this property: how many does the check flag?
+			// (informative: misses are listed in DESIGN.md with their reasons)
+			cmd = exec.Command("python3", filepath.Join(vd, "selftest", "run.py"), "--seeded", prop, "--jobs", "4")
+			cmd.Env = append(os.Environ(), "VERIF_REPO="+*repo)
+			out, _ = cmd.CombinedOutput()
+			caught, missed := 0, []string{}
+			for _, l := range strings.Split(string(out), "\n") {
+				f := strings.Fields(l)
+				if len(f) == 4 && f[1] == "mutant" {
+					if f[0] == "ok" {
+						caught++
+					} else {
+						missed = append(missed, f[3])
+					}
+				}
+			}
+			ev.Coverage.Seeded = fmt.Sprintf("%d of %d independently seeded changes flagged; not flagged: %s", caught, caught+len(missed), strings.Join(missed, " "))
 		}
 	}
 	// known findings that no longer fail are simply not printed (fixed entries suppress nothing)
@@ -596,6 +613,7 @@ type Evidence struct {
 		KnownFindings []interface{}            `json:"known_findings,omitempty"`
 		Slowest       []interface{}            `json:"slowest_obligations,omitempty"`
 		Selftest      string                   `json:"selftest_corpus,omitempty"`
+		Seeded        string                   `json:"seeded_changes,omitempty"`
 	} `json:"coverage"`
 	Assumptions []string `json:"assumptions"`
 	WallS       float64  `json:"wall_s"`
